@@ -823,6 +823,8 @@ def panic_sites(body, include_overflow=False):
         elif t["k"] == "call":
             if t.get("x", "").startswith("m:") and t["x"].split(":")[1] in ("debug_assert", "debug_assert_eq", "debug_assert_ne"):
                 continue
+            if any(m in ("debug_assert", "debug_assert_eq", "debug_assert_ne") for m in t.get("xs", "").split(">")):
+                continue        # compiled out in release builds; a debug-only self-check, not a decode-path panic
             name = strip_generics(body.call_name(t))
             decl = strip_generics(t.get("fn", name))
             for pat, kind in PANIC_CALLEES:
